@@ -113,8 +113,6 @@ structure MatchCore (r : OfMatch) : Prop where
   tos : r.nwTos % 4 = 0
   /-- none of the undefined bits 22..31 of the wildcard word -/
   width : r.wildcards < 2 ^ 22
-  /-- an entry without any wildcard bit is an IPv4 TCP/UDP/ICMP entry (otherwise: D26) -/
-  exactL4 : Spec.exact r = true → r.dlType = 0x0800 ∧ isL4Proto r.nwProto = true
 
 /-- … and, for the strict test `==` of the unrepaired code, no address bits below the prefix length
     (`strict_hostbits_defect` in `Properties/C04`) -/
